@@ -722,6 +722,19 @@ def main():
     it.replace, it.fields = [('a1', 'b1'), ('b1', 'a1')], [Field('a', u8)]
     it = cat_item()
     it.replace, it.fields = [('gen_derive', 'dup'), ('gen_derive', 'dup2'), ('nomatch', 'z')], [Field('a', u8)]
+    # member / variant counts just past the powers of two (lists emitted in pieces, bitmaps of one machine word, ..): the tail
+    # entries carry data, and every variant gets a value
+    for nv in (33, 35, 65, 100, 129):
+        it = cat_item()
+        it.is_enum = True
+        it.variants = [Variant(f'W{i}', 'x' if i >= nv - 3 or i % 31 == 0 else 'u', [Field(None, [u8, u16, bl][i % 3])] if i >= nv - 3 or i % 31 == 0 else [])
+                       for i in range(nv)]
+    it = cat_item()
+    it.is_enum = True
+    it.variants = [Variant(f'S{i}', 'u', [], skip=(i in (3, 17))) for i in range(36)] + [Variant('Tail', 'n', [Field('a', u32, compact=True)])]
+    for nf in (33, 65):
+        it = cat_item()
+        it.fields = [Field(f'g{i}', [u16, bl, u8, u32][i % 4]) for i in range(nf)]
     # items left out on request, and everything that refers to one of them (references only go to earlier items)
     excluded = set()
     want_out = {int(x) for x in a.exclude.split(',') if x.strip()}
